@@ -1443,7 +1443,7 @@ def python_snippet(case):
     return ("import sys; sys.path.insert(0, '/verif/tools'); from props import c12; "
             "print(c12._hist_impl(%r))" % (case,))
 
-LEVEL_TEXT = ('Machine-checked Coq theorems (40, all closed under the global context) about a line-by-line Gallina model of find_orfs, '
+LEVEL_TEXT = ('Machine-checked Coq theorems (42, all closed under the global context) about a line-by-line Gallina model of find_orfs, '
               '_frame_start, _inds2orf, the codon locator of match(), BioSeq/BioBasket.find_orfs and the len_* filters. Every clause of the '
               'property text is a theorem about the model: '
               '(1) every mode, every sequence, rf, minlen, no hypothesis: the fuelled pairing loop terminates within |starts|+|stops|+1 '
@@ -1483,7 +1483,9 @@ LEVEL_TEXT = ('Machine-checked Coq theorems (40, all closed under the global con
               '(repeated and out-of-range frames too) and mode, without hypothesis, the call raises the documented class or returns ORFs '
               'inside the sequence that respect minlen and identify a requested frame (C12_rx_invariants); without repeated frames every mode '
               'equals its specification over the strictly increasing match lists - for need_start="always" under the hypothesis that '
-              'every start match begins before the end of the last residue (C12_rx_modes_spec). The default-settings clause against the declarative predicate '
+              'every start match begins before the end of the last residue (C12_rx_modes_spec), which is discharged syntactically for start '
+              'patterns every word of which begins with a residue (head_ok: A[TU]G, (ATG), AT+G, word alternations, the default) '
+              '(C12_rx_modes_spec_plain); the default codon sets are custom sets for every safe gap set (C12_default_words_ok). The default-settings clause against the declarative predicate '
               'is_orf(text, frame, a, e), both strands, any frame list: sound, complete, no duplicates, increasing order '
               '(C12_default_is_orf) with residue offset = frame and residue count divisible by three (C12_is_orf_residues). Every rf form: '
               'names, ints, tuples, one numpy integer / float / None (TypeError), another string (AssertionError), and tuples with REPEATED '
